@@ -40,7 +40,7 @@ REAL_VS_STUB = {
              'Python registry lookup'],
     'stub_or_simulator_owned': ['block program (choice tape)', 'injected exceptions', 'predicate callbacks'],
 }
-EXPECTED_PROBES = ('enter-form:prebuilt', 'enter-form:decorator', 'raise-base-exception', 'raise-from-optree', 'enter', 'exit', 'raise-exit', 'raise-in-callback', 'non-lifo-exit', 'nested-depth>=3', 'false-inside-true',
+EXPECTED_PROBES = ('registry-churn-in-block', 'enter-form:prebuilt', 'enter-form:decorator', 'raise-base-exception', 'raise-from-optree', 'enter', 'exit', 'raise-exit', 'raise-in-callback', 'non-lifo-exit', 'nested-depth>=3', 'false-inside-true',
                    'iterator-across-exit', 'observe')
 
 V = _C._verif if hasattr(_C, '_verif') else None
@@ -400,7 +400,7 @@ def run_job(job, io):
                         if budget[0] <= 0:
                             break
                         budget[0] -= 1
-                        what = tape.draw(6, 'inner')
+                        what = tape.draw(7, 'inner')
                         if what <= 2:
                             try:
                                 run_block(depth + 1, pending_iters)
@@ -436,6 +436,17 @@ def run_job(job, io):
                             def pred(x):
                                 raise Injected('callback')
                             optree.tree_flatten(extra_tree, is_leaf=pred, namespace=kns)
+                        elif what == 6:
+                            # registry traffic inside the block must not touch the mode: register a scratch type in a namespace,
+                            # use it, unregister it (the last registration of that namespace goes away again)
+                            tns = ('a', 'b', kns or 'a')[tape.draw(3, 'churn-ns')]
+                            probes['registry-churn-in-block'] += 1
+                            oplog.append('registry-churn(%s)' % tns)
+                            f_ = U.Funcs(U.CA, 9000, 0)
+                            optree.register_pytree_node(U.CA, f_.flatten, f_.unflatten, namespace=tns)
+                            optree.tree_flatten(U.CA([1, {'b': 2, 'a': 3}], 0), namespace=tns)
+                            optree.unregister_pytree_node(U.CA, namespace=tns)
+                            step('registry-churn#%d' % depth, model.vector())
                         else:
                             non_lifo(depth, pending_iters)
         finally:
